@@ -382,7 +382,7 @@ func c11Generate(seed uint64, tier string) Plan {
 		case 1:
 			prog = append(prog, Step{Kind: "del", Str: map[string]string{"store": store, "key": key}})
 		case 2:
-			prog = append(prog, Step{Kind: "delall", Str: map[string]string{"store": "session", "val": []string{"", "app", "app,k1"}[r.Intn(3)]}})
+			prog = append(prog, Step{Kind: "delall", Str: map[string]string{"store": "session", "val": []string{"", "app", "app,k1", "k12,k1"}[r.Intn(4)]}})
 		case 3:
 			prog = append(prog, Step{Kind: "header", Str: map[string]string{"key": []string{"X-A", "Content-Type", "Location"}[r.Intn(3)], "val": fmt.Sprintf("h%d", r.Intn(9))}})
 		case 4:
